@@ -12,8 +12,8 @@ B, E = "<!-- OUTCOME:BEGIN -->", "<!-- OUTCOME:END -->"
 DEVIATIONS = """### 10.1 What was built, and where it deviates from the plan above
 
 All twenty properties are claimed; `MANIFEST.json` has no `not_applicable` entry. Each check is
-`./run_check.sh <ID> <tier>`; `quick` takes 2-20 s per property on 16 cores (about 2 minutes for all twenty),
-`thorough` 1-6 minutes. The runner, the case-as-JSON format, collect-then-shrink, replay corpus, known-findings
+`./run_check.sh <ID> <tier>`; `quick` takes 3-10 s per property on 16 cores (C01 about 25 s because of the sandboxed bombs, C05 about 45 s
+because of the schedule enumeration; about 3 minutes for all twenty), `thorough` 1-9 minutes per property (C05 about 20: every generated schedule is compared with the set of sequentially reachable outcomes; about 110 minutes for all twenty). The runner, the case-as-JSON format, collect-then-shrink, replay corpus, known-findings
 protocol and evidence are as designed in section 2. Deviations, all in the direction of *less machinery*:
 
 * **Repairs instead of defect switches.** The design planned three-way differentials (reference with named defect
